@@ -424,7 +424,9 @@ pub fn machine_level(ctx: &Ctx) {
 
 /// Block-size family: the tape reads its file through a 128-byte window; every relation of a
 /// block's total size to that window (1, 2, 127..130, 255..258, 383..385, 512) as first and as second
-/// block. Fixed 16-T steps (the step-partition search above covers the time axis on the named tapes):
+/// block. Fixed 16-T steps (the step-partition search above covers the time axis on the named tapes), each
+/// tape once through an asset delivering whole reads and once through one that returns at most
+/// 1/2/3/31/32/127 bytes per call:
 /// the complete waveform must decode strictly to exactly the blocks.
 pub fn size_family(ctx: &Ctx, thorough: bool) {
     let firsts: Vec<usize> = if thorough { vec![1, 2, 127, 128, 129, 255, 256, 257, 384] } else { vec![1, 128, 129, 256] };
@@ -436,20 +438,27 @@ pub fn size_family(ctx: &Ctx, thorough: bool) {
         let blocks = vec![mk(a, 1), mk(b, 2)];
         let image = AssetData::Static(Box::leak(tap_image(&blocks).into_boxed_slice()));
         let total: u64 = blocks.iter().map(|x| 8063 * PILOT + x.len() as u64 * 16 * ONE + 2 * SECOND).sum::<u64>() + SECOND;
-        let case = json!({"kind":"prepass","tape":format!("sizes-{}-{}", a, b),"blocks":blocks.iter().map(|x| crate::vcore::hex(x)).collect::<Vec<_>>()});
+        // once through an asset that delivers whole reads, once through one that never returns more
+        // than a few bytes per call (a block header or a buffer refill then arrives in pieces)
+        let chunk = [1usize, 2, 3, 31, 32, 127][(a + b + j) % 6];
+        for ch in [0usize, chunk] {
+        let case = json!({"kind":"prepass","tape":format!("sizes-{}-{}", a, b),"chunk":ch,"blocks":blocks.iter().map(|x| crate::vcore::hex(x)).collect::<Vec<_>>()});
         ctx.add_traces(1);
-        match build_chain(&image, 16, total * 2) {
+        let chain = new_tap_chunked(&image, ch).and_then(|t| build_chain_from(t, &image, 16, total * 2));
+        let via = if ch == 0 { String::new() } else { format!(" (asset returns at most {} byte(s) per read)", ch) };
+        match chain {
             Ok(c) if c.ended => match decode(&c.pulses, true) {
                 Ok(d) if d.blocks == blocks => ctx.outcome(0x512E_0000 ^ (a as u64) << 12 ^ b as u64),
                 Ok(d) => ctx.violation(
-                    &format!("C11:block-sizes:decoded-blocks-differ:{}", if b % 128 == 0 || a % 128 == 0 { "multiple-of-128" } else { "other" }),
-                    &format!("tape with blocks of {} and {} bytes: the played waveform decodes to {} block(s) of lengths {:?}; first difference in block {:?}", a, b, d.blocks.len(), d.blocks.iter().map(|x| x.len()).collect::<Vec<_>>(), d.blocks.iter().zip(blocks.iter()).position(|(x, y)| x != y)),
+                    &format!("C11:block-sizes:decoded-blocks-differ:{}{}", if b % 128 == 0 || a % 128 == 0 { "multiple-of-128" } else { "other" }, if ch == 0 { "" } else { ":short-reads" }),
+                    &format!("tape with blocks of {} and {} bytes{}: the played waveform decodes to {} block(s) of lengths {:?}; first difference in block {:?}", a, b, via, d.blocks.len(), d.blocks.iter().map(|x| x.len()).collect::<Vec<_>>(), d.blocks.iter().zip(blocks.iter()).position(|(x, y)| x != y)),
                     case,
                 ),
-                Err(e) => ctx.violation("C11:block-sizes:undecodable", &format!("tape with blocks of {} and {} bytes: {}", a, b, e), case),
+                Err(e) => ctx.violation("C11:block-sizes:undecodable", &format!("tape with blocks of {} and {} bytes{}: {}", a, b, via, e), case),
             },
-            Ok(_) => ctx.violation("C11:block-sizes:never-ends", &format!("tape with blocks of {} and {} bytes does not stop by itself within twice its nominal duration", a, b), case),
-            Err(e) => ctx.violation("C11:block-sizes:error", &format!("tape with blocks of {} and {} bytes: {}", a, b, e), case),
+            Ok(_) => ctx.violation("C11:block-sizes:never-ends", &format!("tape with blocks of {} and {} bytes{} does not stop by itself within twice its nominal duration", a, b, via), case),
+            Err(e) => ctx.violation("C11:block-sizes:error", &format!("tape with blocks of {} and {} bytes{}: {}", a, b, via, e), case),
+        }
         }
     });
     ctx.note("block_size_family", json!({"first": firsts, "second": seconds}));
@@ -555,7 +564,7 @@ pub fn run(tier: Tier, seed: u64, replay: Option<String>) -> i32 {
     size_family(&ctx, tier.is_thorough());
     ear_on_every_even_port(&ctx);
     ctx.finish(
-        "component level: for each tape, every reachable state of the real Tap under all partitions of time into process_clocks steps 0..=16 (search decomposed at state-machine reload events; convergence of all paths at each reload is re-checked on every exit transition); oracle: RefTape decoder on the pulse list (pilot counts, sync, MSB-first bits, pause, decoded bytes == TAP blocks) and nominal <= pulse <= nominal+32 on every edge transition; block-size family: two-block tapes over every relation of the block sizes to the 128-byte read window (1..512 bytes) played in fixed steps and decoded strictly; machine level: idle/polling programs over contended and uncontended bus cycles with the EAR level sampled after every instruction, real-time ROM loads against RefLdBytes, and bit 6 of IN from 256 high bytes x 4 even low bytes at both tape levels. distinct = distinct (pulse kind, extreme duration) and waveform outcomes",
+        "component level: for each tape, every reachable state of the real Tap under all partitions of time into process_clocks steps 0..=16 (search decomposed at state-machine reload events; convergence of all paths at each reload is re-checked on every exit transition); oracle: RefTape decoder on the pulse list (pilot counts, sync, MSB-first bits, pause, decoded bytes == TAP blocks) and nominal <= pulse <= nominal+32 on every edge transition; block-size family: two-block tapes over every relation of the block sizes to the 128-byte read window (1..512 bytes) played in fixed steps (through whole-read and short-read assets) and decoded strictly; machine level: idle/polling programs over contended and uncontended bus cycles with the EAR level sampled after every instruction, real-time ROM loads against RefLdBytes, and bit 6 of IN from 256 high bytes x 4 even low bytes at both tape levels. distinct = distinct (pulse kind, extreme duration) and waveform outcomes",
         true,
         &["hook H3: Tap clone + verif_state (all fields)", "time is measured at call ends (when a reader could first observe the level)"],
     )
@@ -569,6 +578,17 @@ fn replay_case(ctx: &Ctx, path: &str) -> i32 {
         .map(|a| a.iter().map(|x| crate::vcore::unhex(x.as_str().unwrap_or(""))).collect())
         .unwrap_or_default();
     println!("replay: tape blocks {:?}", blocks.iter().map(|b| crate::vcore::hex(b)).collect::<Vec<_>>());
+    if let Some(ch) = case["chunk"].as_u64().filter(|c| *c > 0) {
+        let image = AssetData::Static(Box::leak(tap_image(&blocks).into_boxed_slice()));
+        let total: u64 = blocks.iter().map(|x| 8063 * PILOT + x.len() as u64 * 16 * ONE + 2 * SECOND).sum::<u64>() + SECOND;
+        let chain = new_tap_chunked(&image, ch as usize).and_then(|t| build_chain_from(t, &image, 16, total * 2));
+        let ok = match chain {
+            Ok(c) if c.ended => matches!(decode(&c.pulses, true), Ok(d) if d.blocks == blocks),
+            _ => false,
+        };
+        println!("replay: tape through an asset returning at most {} byte(s) per read: {}", ch, if ok { "decodes to its blocks" } else { "does NOT decode to its blocks" });
+        return (!ok) as i32;
+    }
     if case["kind"] == "ear-port" {
         ear_on_every_even_port(ctx);
         let n = ctx.violation_classes();
